@@ -165,6 +165,14 @@ def _run_cases(args):
     modname, cases, per_case_s = args
     import importlib
     mod = importlib.import_module(modname)
+    # import the implementation before the watchdog is armed: an alarm in the middle of
+    # `import vivarium` would leave half-initialised registries behind for later cases
+    try:
+        import vivarium  # noqa: F401
+        import vivarium.core.engine  # noqa: F401
+        import vivarium.core.composition  # noqa: F401
+    except Exception:  # noqa: a broken tree shows up in the cases themselves
+        pass
     out = []
     signal.signal(signal.SIGALRM, _alarm)
     for c in cases:
